@@ -143,7 +143,10 @@ def summary(fnode, name_map=None, call_alias=None, unroll=(0, 1, 2), ignore_call
                         effects.append(('store', ('sub', v[1][1], k_), '=', val_))
                         continue
                     effects.append(('do', v))
-                elif isinstance(st, (ast.Import, ast.ImportFrom, ast.Pass, ast.Global, ast.Nonlocal, ast.FunctionDef, ast.ClassDef)):
+                elif isinstance(st, ast.FunctionDef):
+                    b.exec_stmt(st)      # one-expression nested functions are bound like lambdas
+                    continue
+                elif isinstance(st, (ast.Import, ast.ImportFrom, ast.Pass, ast.Global, ast.Nonlocal, ast.ClassDef)):
                     continue
                 elif isinstance(st, ast.Delete):
                     effects.append(('del', tuple(T.simp(b.t(x)) for x in st.targets)))
